@@ -168,7 +168,7 @@ def drive(pm: ParserModel, me: Any, hook: Any, lines: Sequence[Line], final_eol:
                 return v
             if line.kind == "X":
                 k = ctx.cls("_expression._primitive." + line.value[0])
-                if line.value[0] == "String" and "\n" in line.value[1]:
+                if line.value[0] == "String" and (len(line.value[1]) > 3):
                     # a string literal with raw line breaks: its terminal's visitor sees the raw text (and has to count the breaks);
                     # the decoding of the literal's escapes is not what is observed here
                     def lit_hook(e: ast.expr, f: Folder) -> Any:
